@@ -185,6 +185,28 @@ let eval inp obs =
     | [] -> (List.rev acc, [])
     | x :: r when aborted x -> (List.rev acc, x :: r)
     | x :: r -> split_at_abort (x :: acc) r in
+  (* stop mode also runs the two-step Enqueue layer (model/ProcessorOuter.v): batches whose Enqueue was
+     refused with errTerminated acquired before quit and failed to queue after it (OAcq .. OQuit ..
+     OQueueFail); accepted batches that show no activity are queued for workers that are leaving
+     (OAcq .. OQuit .. OQueue: their share is stuck).  The semaphore value of that run (core + pending
+     + stuck + leaked, repaired code) is what is compared with the sampled Processing() after Stop. *)
+  let oc l = List.map (fun x -> OCore x) l in
+  let termb = filter_map find term in
+  let osteps =
+    if not stop_mode then [] else begin
+      let before, after = split_at_abort [] started in
+      let drop_last l = (match List.rev l with _ :: r -> List.rev r | [] -> []) in
+      let mid = List.map (fun x -> OAcq x.bt) (silent @ termb) @ [OQuit]
+                @ List.map (fun x -> OQueueFail x.bt.b_id) termb
+                @ List.map (fun x -> OQueue x.bt.b_id) silent in
+      oc (List.concat (List.map (fun x -> SEnq x.bt :: work x) before))
+      @ (match after with
+         | [] -> mid
+         | x0 :: rest ->
+           oc (SEnq x0.bt :: drop_last (work x0)) @ oc (List.map (fun x -> SEnq x.bt) rest) @ mid
+           @ oc (SAbort :: List.concat (List.map work rest)))
+      @ [OCore SStop]
+    end in
   let steps =
     if not stop_mode then List.concat (List.map (fun x -> SEnq x.bt :: work x) (started @ silent))
     else begin
@@ -223,7 +245,14 @@ let eval inp obs =
   let post = drop (List.length pre) all in
   let qtok = Printf.sprintf "Q.%s.%s.%s.%s" (tok_of_n (held_n sq)) (tok_of_n (held_s sq))
       (tok_of_n (total_num (inc (buf sq)))) (tok_of_n (total_size (inc (buf sq)))) in
-  let stok = Printf.sprintf "S.%s.%s" (tok_of_n (held_n sf)) (tok_of_n (held_s sf)) in
+  let outer = if stop_mode then Some (orun (tbl_check h.tc) (tbl_process h.tp) h.capn h.caps h.limn h.lims true h.h0 osteps) else None in
+  let stok = (match outer with
+    | Some o -> Printf.sprintf "S.%s.%s" (tok_of_n (osem_n o)) (tok_of_n (osem_s o))
+    | None -> Printf.sprintf "S.%s.%s" (tok_of_n (held_n sf)) (tok_of_n (held_s sf))) in
+  (* the core-only run (silent batches as plain SEnq) must predict the same value *)
+  let layers_agree = (match outer with
+    | Some o -> tok_of_n (osem_n o) = tok_of_n (held_n sf) && tok_of_n (osem_s o) = tok_of_n (held_s sf)
+    | None -> true) in
   let mobs = pre @ (if hasq || not stop_mode then [qtok] else []) @ post @ [stok]
              @ (if warned sf then ["W"] else []) @ ["M.1"]
              @ List.map (fun (k, r) -> "PE." ^ k ^ "." ^ r) probes
@@ -262,6 +291,7 @@ let eval inp obs =
     List.exists (fun x -> x.bt.b_ordered && x.perm <> List.sort compare x.perm) bs
     || List.exists (fun t -> String.length t > 2 && t.[0] = 'R' && (let c = t.[String.length t - 1] in c = '4' || c = '6')) pre
     || (stop_mode && List.exists (fun o -> match o with PAborted _ -> true | _ -> false) l) in
-  { default_verdict with model_obs = mobs; spec_ok; note; model_spec_ok; nontrivial }
+  { default_verdict with model_obs = mobs; spec_ok; note = (if layers_agree then note else note ^ " outer-vs-core-semaphore-differ");
+    model_spec_ok = model_spec_ok && layers_agree; nontrivial }
 
 let () = run eval
